@@ -9,7 +9,7 @@ pids_all = ["C%02d" % i for i in range(1, 21)]
 def run(seed):
     d = os.path.join(VERIF, "seeded", seed)
     meta = json.load(open(d + "/meta.json"))
-    owner = meta["property"]
+    owner = meta.get("breaks", meta["property"])
     tmp = tempfile.mkdtemp(prefix="seedm-")
     try:
         shutil.copytree("/repo/src", tmp + "/src")
@@ -44,6 +44,7 @@ for seed, owner, res in results:
     print("%-7s owner %s: %-12s rules=%s%s" % (seed, owner, status, own.get("rules"), ("  also: " + ",".join(p for p in det if p != owner)) if ALL else ""))
     mp = os.path.join(VERIF, "seeded", seed, "meta.json")
     meta = json.load(open(mp))
+    owner = meta.get("breaks", owner)
     meta["checks"] = {"owner_check": owner, "owner_result": status, "owner_rules": own.get("rules"), "also_detected_by": [p for p in det if p != owner] if ALL else meta.get("checks", {}).get("also_detected_by")}
     json.dump(meta, open(mp, "w"), indent=1)
 print("missed/inconclusive:", missed, "of", len(results))
